@@ -48,7 +48,8 @@ TRUSTED = [
 ]
 PARTIAL = [
     "collapse=True rest arrays: compared with the model only on parts whose divisions are powers of two "
-    "(float32 equality of onset+duration is then exact); no oracle clause (the property does not define collapsing)",
+    "(float32 equality of onset+duration is then exact); the oracle only checks that a collapsed row's div, beat and "
+    "quarter durations agree through the part's maps (which rests merge is not defined by the property); no theorem",
     "from_to_array: the model's created part has no measures/ties; the sanitize=True path is compared, not proved",
 ]
 RULE = ("generated parts (explicit measures, optional pickup, time/key signature changes, optional division change, "
@@ -540,6 +541,38 @@ def check_rows(na, parts_exp, what, fails, scale=None, prefix=None, check_div=Tr
         fails.append("%s order: rows are not ordered by (onset_beat, pitch): %s" % (what, ks[:12]))
 
 
+def check_collapsed(na, part, exp, fails):
+    """collapse=True: every kept row is a rest of the part at its own onset whose three durations agree with
+    each other through the part's maps (duration_div spans [onset, onset+duration_div]), and nothing is longer than
+    what the part's rests of that voice hold"""
+    byvoice = {}
+    for e in exp.values():
+        byvoice.setdefault(e["voice"], []).append((e["onset_div"], e["off"]))
+    for spans in byvoice.values():
+        spans.sort()
+        if any(spans[i + 1][0] < spans[i][1] or spans[i + 1][0] == spans[i][0] for i in range(len(spans) - 1)):
+            return  # overlapping rests in one voice: the same rest can be absorbed twice; nothing to state
+    for r in na:
+        rid = str(r["id"])
+        if rid not in exp:
+            fails.append("rests collapse: row %s is not a rest of the part" % rid)
+            continue
+        e = exp[rid]
+        on, dd = int(r["onset_div"]), int(r["duration_div"])
+        if on != e["onset_div"] or dd < e["duration_div"]:
+            fails.append("rests collapse: row %s at %d lasting %d, the rest is at %d lasting %d" % (rid, on, dd, e["onset_div"], e["duration_div"]))
+            continue
+        b = np.asarray(part.beat_map([on, on + dd]), dtype=float)
+        q = np.asarray(part.quarter_map([on, on + dd]), dtype=float)
+        tol = 8 * RTOL
+        if abs(float(r["duration_beat"]) - (b[1] - b[0])) > tol * max(1.0, abs(b[1] - b[0])):
+            fails.append("rests collapse duration_beat: row %s lasts %d divs = %r beats by the part's map, column says %r" % (
+                rid, dd, float(b[1] - b[0]), float(r["duration_beat"])))
+        if abs(float(r["duration_quarter"]) - (q[1] - q[0])) > tol * max(1.0, abs(q[1] - q[0])):
+            fails.append("rests collapse duration_quarter: row %s lasts %d divs = %r quarters by the part's map, column says %r" % (
+                rid, dd, float(q[1] - q[0]), float(r["duration_quarter"])))
+
+
 def lcm_list(xs):
     out = 1
     for x in xs:
@@ -747,7 +780,7 @@ def evaluate(d):
                 fn = lambda: M.ensure_rest_array(part, **kw)
             if collapse and not pow2:
                 try:
-                    fn()
+                    check_collapsed(fn(), part, exp, fails)
                 except Exception as e:
                     fails.append("rests raised: options %s raised %s: %s" % (c, type(e).__name__, str(e)[:200]))
                 continue
@@ -761,6 +794,8 @@ def evaluate(d):
                 fails.append("rests columns: options %s give %s, expected %s" % (c, list(na.dtype.names), want_names))
             if not collapse:
                 check_rows(na, [(part, exp)], "rests", fails)
+            else:
+                check_collapsed(na, part, exp, fails)
         if G.fingerprint_part(part) != fp0:
             fails.append("rests frame: rest_array modified the part")
         ev.key = str(hash("|".join(ev.requests))) if nrows else None
